@@ -80,3 +80,24 @@ def _it_gen(env):
 @native_fun("iterable")
 def _it_one(env):
     return ("only",)
+
+
+@native_fun("render_callable")
+def _rc_page(env):
+    def render_body(context, a, b=2, **pageargs):
+        return ""
+    return render_body
+
+
+@native_fun("render_callable")
+def _rc_def(env):
+    def render_x(context, a, k, *rest):
+        return ""
+    return render_x
+
+
+@native_fun("render_callable")
+def _rc_ctx_only(env):
+    def render_y(context):
+        return ""
+    return render_y
